@@ -18,10 +18,10 @@ func init() {
 			ID: "C17", Engine: "dbsim", Level: "fault_enumeration", DesignRef: "DESIGN.md section 5 C17",
 			Technique: "deterministic simulation with crash-point enumeration: every interposed flat-file mutation and named point of each seeded workload gets its own execution with a process stop there (torn write variants, second stop during recovery), recovered by the real openDB/reconcileDB",
 			LevelText: "Per generated workload, every crash position (each WriteAt/Sync/Truncate/open/delete of the flat files and each named point around the leveldb commits) is enumerated: the simulated process stops there, the data directory snapshot is reopened with the real recovery code, and the content must equal exactly one model version between the last observed-flushed one and the interrupted commit; present blocks must read back byte-exact; later commits must work. Workloads themselves are sampled by seed.",
-			LevelNote: "Fault model is process stop (completed writes survive, the in-flight write may be torn), as the property states; goleveldb's own files are trusted. Workloads exceeding the scenario cap are stride-sampled and counted separately (probe workload-sampled-not-exhaustive).",
+			LevelNote: "Two fault models per crash position: process stop (completed writes survive, the in-flight write may be torn) and power loss (of every flat file only the bytes covered by a completed Sync survive, while goleveldb's own files are kept as written - the write-back order that makes metadata run ahead of block data). goleveldb's own files are trusted. Workloads exceeding the scenario cap are stride-sampled and counted separately (probe workload-sampled-not-exhaustive).",
 			Rule:      "one evaluation = one workload with all its crash positions executed (probe crash-executions counts the executions). Distinct = distinct event-log hash; non-trivial = at least one process stop fired and the recovery oracle ran after it.",
-			Assumptions: []string{"goleveldb transaction commit is atomic and its files survive a process stop", "process-stop fault model (not power loss)"},
-			Quick:      Budget{Runs: 64, WallS: 60, Batch: 2, RunTimeoutS: 120},
+			Assumptions: []string{"goleveldb transaction commit is atomic and its files survive a process stop and a power loss (only the flat files lose unsynced bytes)"},
+			Quick:      Budget{Runs: 64, WallS: 40, Batch: 2, RunTimeoutS: 120},
 			Thorough:   Budget{Runs: 6000, WallS: 1200, Batch: 4, RunTimeoutS: 300},
 			MustProbes: []string{"crash-executions", "reconcile-repaired-files", "recovered-to-interrupted-commit", "recovered-to-last-commit"},
 		},
